@@ -121,7 +121,7 @@ def try_refute(prop, v, repo, seed):
     if unit in ("S64", "S32"):
         r = refute_scalar(64 if unit == "S64" else 32, name, repo, seed)
         return r if r is not None else refute_papi(unit, name, repo, seed)
-    if unit in ("ED", "RIS", "MONT", "SG", "SGR", "SM", "SM2", "SIG", "FG", "GRP", "MSM", "VSM", "VMSM", "AVX2E", "AVX2F", "BATCH"):
+    if unit in ("ED", "RIS", "MONT", "SG", "SGR", "SM", "SM2", "SIG", "FG", "GRP", "MSM", "VSM", "VMSM", "AVX2E", "AVX2F", "BATCH", "K-SERDE", "RIS2", "SMNT", "BV", "IFMAE", "IFMAF"):
         return refute_papi(unit, name, repo, seed)
     return None
 
@@ -336,7 +336,7 @@ def refute_papi(unit, fn, repo, seed):
         reqs.append(rq); exps.append(ex)
 
     fams = {"ED": ["ed"], "RIS": ["ris"], "MONT": ["mont"], "SG": ["sc"], "S64": ["sc"], "S32": ["sc"], "SGR": ["sc", "edmul"], "SM": ["edmul"], "SM2": ["edmul"], "MSM": ["edmul"], "VSM": ["edmul"], "VMSM": ["edmul"], "AVX2E": ["ed", "edmul"], "AVX2F": ["ed", "edmul"],
-            "SIG": ["sig", "slices"], "GRP": ["grp", "ed", "ris"], "FG": ["ed", "ris"], "F64": ["ed"], "F32": ["ed"]}.get(unit, ["ed", "ris", "mont", "sc", "edmul", "sig", "slices", "grp"])
+            "SIG": ["sig", "slices"], "BV": ["sig", "slices"], "K-SERDE": ["serde"], "RIS2": ["ris", "edmul"], "SMNT": ["edmul", "sig"], "IFMAE": ["ed", "edmul"], "IFMAF": ["ed", "edmul"], "GRP": ["grp", "ed", "ris"], "FG": ["ed", "ris"], "F64": ["ed"], "F32": ["ed"]}.get(unit, ["ed", "ris", "mont", "sc", "edmul", "sig", "slices", "grp"])
     valid_pts = []
     for b in encs:
         a = O.ed_decode(b)
@@ -493,6 +493,45 @@ def refute_papi(unit, fn, repo, seed):
             add("sig.esk_from_slice %s" % _h(b), "OK" if n == 64 else "ERR")
             add("ed.from_slice %s" % _h(b), _h(b) if n == 32 else "ERR")
             add("ris.from_slice %s" % _h(b), _h(b) if n == 32 else "ERR")
+    if "serde" in fams:
+        # real serde impls through real bincode 1.x (fixed-int LE; [u8;32] tuples are raw, serialize_bytes is an 8-byte length prefix + bytes)
+        def pre(b):
+            return len(b).to_bytes(8, "little") + b
+        for b in encs:
+            a = O.ed_decode(b)
+            for tail in (b"", b"\x55"):
+                add("serde.ed_de %s" % _h(b + tail), "ERR" if a is None else _h(O.ed_encode(a)))
+                d = O.r255_decode(b)
+                add("serde.ris_de %s" % _h(b + tail), "ERR" if d is None else _h(O.r255_encode(d)))
+                add("serde.cey_de %s" % _h(b + tail), _h(b))
+                add("serde.cris_de %s" % _h(b + tail), _h(b))
+                add("serde.mont_de %s" % _h(b + tail), _h(b))
+                v = int.from_bytes(b, "little")
+                add("serde.scalar_de %s" % _h(b + tail), _h(b) if v < O.L else "ERR")
+            if a is not None:
+                add("serde.ed_ser %s" % _h(b), _h(O.ed_encode(a)))
+                add("serde.vk_ser %s" % _h(b), _h(pre(b)))
+                add("serde.vk_de %s" % _h(pre(b)), _h(b))
+            else:
+                add("serde.vk_ser %s" % _h(b), "BADKEY")
+                add("serde.vk_de %s" % _h(pre(b)), "ERR")
+            d = O.r255_decode(b)
+            if d is not None:
+                add("serde.ris_ser %s" % _h(b), _h(O.r255_encode(d)))
+            add("serde.scalar_ser %s" % _h(b), _h((int.from_bytes(b, "little") % O.L).to_bytes(32, "little")))
+            add("serde.mont_ser %s" % _h(b), _h(b))
+            add("serde.sk_ser %s" % _h(b), _h(pre(b)))
+            add("serde.xpk_rt %s" % _h(b), "%s %s" % (_h(b), _h(b)))
+        good = O.public_key(bytes([7]) * 32)
+        sg = O.sign(bytes([7]) * 32, b"abc")
+        for n in (0, 1, 31, 32, 33, 63, 64, 65):
+            blob = (good * 3)[:n]
+            add("serde.ed_de %s" % _h(blob), _h(good) if n >= 32 else "ERR")
+            add("serde.sk_de %s" % _h(pre(blob)), _h(blob) if n == 32 else "ERR")
+            add("serde.vk_de %s" % _h(pre(blob)), _h(blob) if n == 32 else "ERR")
+            # a length prefix that promises more than is there
+            add("serde.sk_de %s" % _h((n + 1).to_bytes(8, "little") + blob), "ERR")
+        # ed25519::Signature's serde impl lives in the external `ed25519` crate (tuple of 64 u8), not in the repository: not judged here
     if "grp" in fams:
         for (b1, a1) in valid_pts[:40]:
             tf = 1 if O.ed_mul(O.L, a1) == O.ID else 0
